@@ -1050,6 +1050,13 @@ def install(lib):
         return VTuple([VStr(simp(root)), VStr(simp(ext))])
     op['splitext'] = _splitext
 
+    env = VOpaque(z3.Const('os_environ', U), 'os.environ')
+    env.attrs = {'get': VFunc('os.environ.get', lambda it, a, k, n: VStr(it.ctx.fresh_const('envvar', S))),
+                 'copy': VFunc('os.environ.copy', lambda it, a, k, n: VCell(VMap(it.ctx.fresh_const('environ', DictT(Str, Str).sort()), Str, Str), 'dict'))}
+    for v_ in env.attrs.values():
+        v_.bind = False
+    lib.modules['os']['environ'] = env
+
     # ------------------------------------------------------------ stat / errno
     st = lib.modules.setdefault('stat', {})
     for nm in ('S_ISREG', 'S_ISDIR', 'S_ISCHR', 'S_ISBLK', 'S_ISFIFO', 'S_ISSOCK'):
@@ -1248,6 +1255,9 @@ def _iteration_source(self, it, v, node):
 
         def nxt(itp, i):
             if itp.ctx.branch(i < length, 'for-more'):
+                for s in seqs:
+                    # valid fact that the sequence solvers do not find by themselves: s[i] occurs in s
+                    itp.ctx.assume(z3.Contains(s.t, z3.Unit(s.t[i])))
                 return VTuple([s.ety.wrap(simp(s.t[i])) for s in seqs])
             return None
         return IterSource(seqs[0].t, length, nxt)
